@@ -59,6 +59,12 @@ def r4_norm(run, tree):
     vq.check_norm(run, tree)
 
 
+def r4b_norm_corners(run, tree):
+    run.rule("C09.R9", "norm is total: rows of exact zeros give 0 (not nan), boolean and integer components are reduced without a cast error", "D7 fold of Vector.norm over small concrete vectors (IEEE division, numpy casting rules for out=)", "", floor=4)
+    from . import quantity_stack as qs
+    qs.check_norm_corner_cases(run, tree)
+
+
 def r5_dot(run, tree):
     run.rule("C09.R5", "dot product = sum of component products as physical quantities; unit provenance", "D7 fold of Vector.dot over quantities", "",
              floor=5)
@@ -85,7 +91,7 @@ def r8_gate(run, tree):
     af.check_wrap_numpy_fold(run, tree, want=("gate-numeric", "gate-bool"))
 
 
-RULES = [r1_forwarding, r2_lifting, r3_cross, r4_norm, r5_dot, r6_construction, r7_conversion, r8_gate]
+RULES = [r1_forwarding, r2_lifting, r3_cross, r4_norm, r5_dot, r6_construction, r7_conversion, r8_gate, r4b_norm_corners]
 
 
 def t_pair_space(run, tree):
